@@ -335,3 +335,39 @@ Proof.
   intros s H. unfold decode in H. destruct (map_opt digit_of s) as [ds|] eqn:E; [|congruence].
   apply (map_opt_sound s ds E).
 Qed.
+
+(* ---- non-ASCII input ------------------------------------------------------------
+   The Go decoder ranges over the RUNES of the text and refuses every rune
+   above 255, every rune 128..255 (not in the table) and U+FFFD (invalid
+   UTF-8).  Every byte of the UTF-8 form of such a rune, and every byte of an
+   invalid sequence, is >= 128, so at the level of bytes this is: a text with
+   a byte >= 128 decodes to the empty string - which the byte model does. *)
+Lemma alphabet_ascii_b : forallb (fun c => c <? 128) alphabet = true.
+Proof. vm_compute. reflexivity. Qed.
+
+Lemma over_alphabet_ascii : forall s, over_alphabet s -> Forall (fun c => c < 128) s.
+Proof.
+  intros s H. unfold over_alphabet in H. rewrite Forall_forall in *. intros c Hc.
+  pose proof alphabet_ascii_b as T. rewrite forallb_forall in T.
+  apply N.ltb_lt. apply T. apply H. exact Hc.
+Qed.
+
+Theorem decode_non_ascii : forall s, Exists (fun c => 128 <= c) s -> decode s = [].
+Proof.
+  intros s H. apply decode_invalid. intro Ho. apply over_alphabet_ascii in Ho.
+  rewrite Exists_exists in H. destruct H as (c & Hin & Hc). rewrite Forall_forall in Ho.
+  specialize (Ho c Hin). lia.
+Qed.
+
+Lemma char_of_in : forall d, d < 58 -> In (char_of d) alphabet.
+Proof. intros d Hd. unfold char_of. apply nth_In. rewrite alphabet_length. lia. Qed.
+
+Lemma encode_over_alphabet : forall bs, over_alphabet (encode bs).
+Proof.
+  intro bs. unfold encode, over_alphabet. apply Forall_app. split.
+  - apply Forall_forall. intros c Hc. apply repeat_spec in Hc. subst c.
+    rewrite <- char_of_0. apply char_of_in. lia.
+  - apply Forall_forall. intros c Hc. apply in_map_iff in Hc. destruct Hc as (d & <- & Hd).
+    apply char_of_in. pose proof (digits_lt 58 (val 256 bs) ltac:(lia)) as L.
+    rewrite Forall_forall in L. apply L. exact Hd.
+Qed.
